@@ -9,6 +9,7 @@ import (
 	"net/http/httptest"
 	"strings"
 	"sync/atomic"
+	"testing/iotest"
 	"time"
 
 	"github.com/transparency-dev/witness/internal/config"
@@ -44,8 +45,17 @@ func c10Body(old uint64, proof [][]byte, cp []byte) []byte {
 	return b.Bytes()
 }
 
-func c10Serve(h http.Handler, body []byte) httpResp {
+func c10Serve(h http.Handler, body []byte) httpResp { return c10ServeMode(h, body, "whole") }
+
+// c10ServeMode: mode "whole" = body in one piece with Content-Length;
+// "bytewise" = no Content-Length (chunked upload) and one byte per Read.
+func c10ServeMode(h http.Handler, body []byte, mode string) httpResp {
 	req := httptest.NewRequest(http.MethodPost, "/add-checkpoint", bytes.NewReader(body))
+	if mode == "bytewise" {
+		req = httptest.NewRequest(http.MethodPost, "/add-checkpoint", iotest.OneByteReader(bytes.NewReader(body)))
+		req.ContentLength = -1
+		req.TransferEncoding = []string{"chunked"}
+	}
 	rec := httptest.NewRecorder()
 	h.ServeHTTP(rec, req)
 	return httpResp{Status: rec.Code, CT: rec.Header().Get("Content-Type"), Body: rec.Body.String()}
@@ -180,7 +190,13 @@ func c10(tier string) int {
 		e.X["handler"] = bastion.VerifNewHandler(omniwitness.VerifWitnessAdapter(e.W), c10Logs(la, lb), u.W1.CosigVerif, rate.Inf, 1, true)
 	}
 	do := func(e *wh.Env, r wh.Req) (wh.Outcome, any) {
-		resp := c10Serve(e.X["handler"].(http.Handler), c10Body(r.Old, r.Proof, r.CP))
+		// Both stores see the same alphabet; the sql run delivers every body as
+		// a chunked upload one byte at a time, the mem run in one piece.
+		mode := "whole"
+		if e.Cfg.Store == "sql" {
+			mode = "bytewise"
+		}
+		resp := c10ServeMode(e.X["handler"].(http.Handler), c10Body(r.Old, r.Proof, r.CP), mode)
 		out := wh.Outcome{Class: fmt.Sprintf("http-%d", resp.Status), Bytes: []byte(resp.Body)}
 		if resp.Status == 200 {
 			out.Class = wh.OK
@@ -222,7 +238,7 @@ func c10(tier string) int {
 	run.Set("traces_validated_against_impl", trans)
 	run.Set("evaluations", trans+run.Get("malformed_bodies")+run.Get("rate_limit_requests"))
 	run.Set("exhaustive", true)
-	run.Set("rule", fmt.Sprintf("explicit-state BFS where every transition is an HTTP request to the real add-checkpoint handler (built as FeedBastion builds it, behind the same 16 KiB MaxBytesHandler) in front of the real witness behind the real witnessAdapter; states are witness states reached through the endpoint (sizes 0..%d, forks at 0 and 3, both stores); alphabet = the C01 alphabet rendered as request bodies + unknown origin; oracle = wmodel composed with the protocol's status map, 200 bodies verified as cosignature lines over the submitted text, 409 stale bodies compared with the true size; plus malformed bodies and three rate-limit regimes. distinct_nontrivial = distinct (state, expected answer, request)", n))
+	run.Set("rule", fmt.Sprintf("explicit-state BFS where every transition is an HTTP request to the real add-checkpoint handler (built as FeedBastion builds it, behind the same 16 KiB MaxBytesHandler; bodies delivered in one piece with Content-Length in the in-memory run and as a chunked upload one byte per Read in the sql run, malformed bodies both ways) in front of the real witness behind the real witnessAdapter; states are witness states reached through the endpoint (sizes 0..%d, forks at 0 and 3, both stores); alphabet = the C01 alphabet rendered as request bodies + unknown origin; oracle = wmodel composed with the protocol's status map, 200 bodies verified as cosignature lines over the submitted text, 409 stale bodies compared with the true size; plus malformed bodies and three rate-limit regimes. distinct_nontrivial = distinct (state, expected answer, request)", n))
 	run.Assumption("the search is in process (httptest recorder); a 53-request transition tour (every verdict class in every state along none -> 2 -> 4 -> 6 -> 8) is also sent over a real TLS 1.3 + HTTP/2 reverse connection through the exported FeedBastion and compared, answer by answer, with the in-process handler on a twin witness")
 	return run.Finish()
 }
@@ -235,21 +251,25 @@ func c10Malformed(run *ev.Run, u *uni.U, gen *wh.CPGen, la, lb wh.LogCfg) {
 	p := u.Main.Proof(2, 4)
 	valid := c10Body(2, p, good)
 	bodies := map[string][]byte{
-		"empty body":                  {},
-		"no old line":                 append([]byte("\n"), good...),
-		"old line without number":     append([]byte("old \n\n"), good...),
-		"old line negative":           append([]byte("old -1\n\n"), good...),
-		"old overflow":                append([]byte("old 18446744073709551616\n\n"), good...),
-		"wrong keyword":               append([]byte("new 2\n\n"), good...),
-		"bad base64 proof line":       append([]byte("old 2\n!!!notbase64!!!\n\n"), good...),
-		"missing blank line":          []byte("old 2\n" + base64.StdEncoding.EncodeToString(p[0]) + "\n"),
-		"only old line":               []byte("old 2\n"),
-		"checkpoint of one line":      []byte("old 0\n\njust-one-line-without-newline"),
-		"checkpoint empty":            []byte("old 0\n\n"),
-		"body over 16 KiB":            append(append([]byte{}, valid...), bytes.Repeat([]byte("x"), 17*1024)...),
-		"proof region over 16 KiB":    append([]byte("old 2\n"+strings.Repeat(base64.StdEncoding.EncodeToString(make([]byte, 32))+"\n", 400)+"\n"), good...),
+		"empty body":               {},
+		"no old line":              append([]byte("\n"), good...),
+		"old line without number":  append([]byte("old \n\n"), good...),
+		"old line negative":        append([]byte("old -1\n\n"), good...),
+		"old overflow":             append([]byte("old 18446744073709551616\n\n"), good...),
+		"wrong keyword":            append([]byte("new 2\n\n"), good...),
+		"bad base64 proof line":    append([]byte("old 2\n!!!notbase64!!!\n\n"), good...),
+		"missing blank line":       []byte("old 2\n" + base64.StdEncoding.EncodeToString(p[0]) + "\n"),
+		"only old line":            []byte("old 2\n"),
+		"checkpoint of one line":   []byte("old 0\n\njust-one-line-without-newline"),
+		"checkpoint empty":         []byte("old 0\n\n"),
+		"body over 16 KiB":         append(append([]byte{}, valid...), bytes.Repeat([]byte("x"), 17*1024)...),
+		"proof region over 16 KiB": append([]byte("old 2\n"+strings.Repeat(base64.StdEncoding.EncodeToString(make([]byte, 32))+"\n", 400)+"\n"), good...),
 	}
-	for _, pre := range []bool{false, true} {
+	for _, pm := range []struct {
+		pre  bool
+		mode string
+	}{{false, "whole"}, {true, "whole"}, {false, "bytewise"}, {true, "bytewise"}} {
+		pre := pm.pre
 		for name, b := range bodies {
 			e := wh.NewEnv(u, wh.Config{Store: "mem", Logs: []wh.LogCfg{la, lb}})
 			cw := &countingWitness{in: omniwitness.VerifWitnessAdapter(e.W)}
@@ -262,10 +282,10 @@ func c10Malformed(run *ev.Run, u *uni.U, gen *wh.CPGen, la, lb wh.LogCfg) {
 			}
 			before := e.Snap()
 			calls := cw.calls.Load()
-			resp := c10Serve(h, b)
+			resp := c10ServeMode(h, b, pm.mode)
 			run.Add("malformed_bodies", 1)
 			run.Hist("expected_answers", "malformed->400")
-			run.Distinct(fmt.Sprintf("malformed|%v|%s", pre, name))
+			run.Distinct(fmt.Sprintf("malformed|%v|%s|%s", pre, name, pm.mode))
 			rep := map[string]any{"kind": "http-body", "seeded": pre, "name": name, "body_b64": base64.StdEncoding.EncodeToString(b)}
 			if resp.Status != 400 {
 				run.Report(fmt.Sprintf("malformed-body status=%d name=%s", resp.Status, name), fmt.Sprintf("malformed body (%s) answered %d, want 400", name, resp.Status), rep)
